@@ -21,7 +21,7 @@ import warnings
 
 from hypothesis import strategies as st
 
-from .. import known
+from .. import fp, known
 from ..core import Eval, Family, HarnessError
 from . import _c19_model as M
 
@@ -1261,6 +1261,108 @@ def selftest():
         raise HarnessError(f"known findings without a predicate in c19.py: {sorted(missing)}")
 
 
+# ------------------------------------------------- ignore_na=True on nullable extension arrays (pd.NA-holding dtypes)
+
+EXT_DTYPES = ["Int64", "UInt8", "boolean", "Float64", "string", "Int8"]
+
+
+@st.composite
+def strat_ext(draw):
+    dtype = draw(st.sampled_from(EXT_DTYPES))
+    n = draw(st.integers(0, 6))
+    if dtype == "boolean":
+        cell = st.one_of(st.booleans(), st.none())
+        pred = draw(st.sampled_from([{"k": "eq", "v": True}, {"k": "eq", "v": False}, {"k": "const", "v": True}, {"k": "const", "v": False}]))
+    elif dtype == "string":
+        cell = st.one_of(st.sampled_from(["", "a", "ab", "abc"]), st.none())
+        pred = draw(st.sampled_from([{"k": "isin", "A": ["a", "ab"]}, {"k": "eq", "v": "a"}, {"k": "const", "v": False}]))
+    else:
+        lo = 0 if dtype == "UInt8" else -4
+        cell = st.one_of(st.integers(lo, 4), st.none())
+        pred = draw(st.one_of(st.builds(lambda a: {"k": "gt", "a": a}, st.integers(lo, 4)),
+                              st.builds(lambda A: {"k": "isin", "A": A}, st.lists(st.integers(lo, 4), max_size=3, unique=True)),
+                              st.sampled_from([{"k": "const", "v": False}, {"k": "const", "v": True}])))
+    return {"dtype": dtype, "cells": draw(st.lists(cell, min_size=n, max_size=n)), "pred": pred,
+            "form": draw(st.sampled_from(["vec", "ew"])), "entry": draw(st.sampled_from(["column", "series"])),
+            "index": draw(_index_strategy(n)), "lazy": draw(st.booleans())}
+
+
+def _ext_pred(p):
+    k = p["k"]
+    if k == "gt":
+        return (lambda x: bool(x > p["a"])), (lambda s: s > p["a"])
+    if k == "eq":
+        return (lambda x: bool(x == p["v"])), (lambda s: s == p["v"])
+    if k == "isin":
+        A = list(p["A"])
+        return (lambda x: x in A), (lambda s: s.isin(A))
+    v = bool(p["v"])
+    return (lambda x: v), (lambda s: s == s if v else s != s)
+
+
+def eval_ext(case):
+    """ignore_na=True on a column of a nullable extension dtype: pd.NA elements are never shown to the function and
+    never cause failure; the verdict and the failure cases are those of the non-null elements."""
+    import pandas as pd
+    import pandera as pa
+
+    ev = Eval()
+    dtype, cells, pred = case["dtype"], case["cells"], case["pred"]
+    scalar, vec = _ext_pred(pred)
+    labels = case["index"] if case["index"] is not None else list(range(len(cells)))
+    if case["index"] is not None and len(set(map(repr, labels))) != len(labels):
+        ev.skipped = "duplicated labels (failure-case reshaping is C02's subject)"
+        return ev
+    series = pd.Series(pd.array([pd.NA if c is None else c for c in cells], dtype=dtype), name="a")
+    if case["index"] is not None:
+        series.index = pd.Index(list(labels), dtype=object if not labels else None)
+    nulls = [i for i, c in enumerate(cells) if c is None]
+    fail = [i for i, c in enumerate(cells) if c is not None and not scalar(c)]
+    ev.nontrivial = bool(nulls)
+    ev.labels += ["ext:dtype=" + dtype, "ext:form=" + case["form"], "ext:has-null" if nulls else "ext:no-null",
+                  "ext:ref=fail" if fail else "ext:ref=pass", "ext:pred=" + pred["k"]]
+    shown_null = []
+
+    def fn_vec(s):
+        shown_null.append(bool(pd.isna(s).any()))
+        return vec(s)
+
+    def fn_ew(x):
+        shown_null.append(x is pd.NA or x is None or (isinstance(x, float) and x != x))
+        return scalar(x)
+
+    chk = pa.Check(fn_ew, element_wise=True, ignore_na=True) if case["form"] == "ew" else pa.Check(fn_vec, ignore_na=True)
+    schema = _mk_schema(case["entry"], chk)
+    obj = _mk_obj(case["entry"], series)
+    o = fp.outcome(lambda: schema.validate(obj, lazy=case["lazy"]))
+    if o["kind"] in ("internal", "usage"):
+        ev.add("ext:internal-exception:" + str(o.get("exc_type")), {"where": o.get("where"), "msg": o.get("msg", "")[:200]})
+        return ev
+    if any(shown_null):
+        ev.add("ext:ignore_na-true-null-shown-to-function:" + case["form"], {"dtype": dtype, "cells": cells})
+    passed = o["kind"] == "ok"
+    if passed != (not fail):
+        reasons = o.get("reasons")
+        if reasons and set(reasons) - {"DATAFRAME_CHECK"}:
+            ev.add("ext:unexpected-error:" + "+".join(reasons), {"dtype": dtype, "msg": str(o.get("exc"))[:300]})
+        else:
+            ev.add("ext:verdict:" + ("null-or-valid-element-fails" if not fail else "failing-element-accepted"),
+                   {"dtype": dtype, "cells": cells, "pred": pred, "expected_fail_positions": fail,
+                    "msg": str(o.get("exc"))[:300]})
+        return ev
+    if not passed:
+        try:
+            exc = o["exc"]
+            fc = exc.failure_cases
+            got = sorted((M.norm(r["index"]), M.norm(r["failure_case"])) for _, r in fc.iterrows())
+            want = sorted((M.norm(labels[i]), M.norm(cells[i])) for i in fail)
+            if got != want:
+                ev.add("ext:failure-cases-differ", {"got": got[:6], "want": want[:6], "dtype": dtype})
+        except Exception as e:
+            ev.add("ext:failure-cases-unreadable", repr(e)[:200])
+    return ev
+
+
 FAMILIES = [
     Family("column", eval_column, strategy=strat_column, n_quick=450, n_thorough=5000, shards_quick=4,
            shards_thorough=16, setup=_setup,
@@ -1276,6 +1378,8 @@ FAMILIES = [
     Family("alias", eval_alias, strategy=strat_alias, n_quick=250, n_thorough=2500, shards_quick=2,
            shards_thorough=8, setup=_setup,
            required_labels=["alias=" + a_ for a_ in sorted(M.ALIASES)] + ["alias:has-null", "alias:on-bound"]),
+    Family("nullable_ext", eval_ext, strategy=strat_ext, n_quick=300, n_thorough=3000, shards_quick=2, shards_thorough=8,
+           setup=_setup, required_labels=["ext:has-null", "ext:ref=fail", "ext:form=ew", "ext:dtype=Int64", "ext:dtype=boolean"]),
     Family("polars", eval_polars, strategy=strat_polars, n_quick=120, n_thorough=1200, shards_quick=3,
            shards_thorough=16, setup=_setup_polars,
            required_labels=["pl:has-null", "pl:behind-known", "pl:ignore_na=False", "pl:ref=fail", "pl:lf"]),
